@@ -134,6 +134,22 @@ CHECKS = {
 }
 
 
+
+# clauses added after seeding round 10 (appended to the level text)
+ROUND10 = {
+    "C01": " Also: the placeholder allocation is preceded by an exit for every index >= MAX_MAGICS (limit test folded at the boundary).",
+    "C02": " Also: line-start handling is re-enabled only when the outermost disable scope ends (counter test folded for 0..3); a single-index marker comparison is a violation.",
+    "C04": " Also: the store of an argument and the lookup of a reference use the same integer-key predicate.",
+    "C05": " Also: the loop detector skips a candidate period only on account of one fixed position, never under a test quantifying over the whole candidate.",
+    "C06": " Also: inside _bind the bound values (taint closure) are used only as arguments of the wrapped call, so no exception object can carry the context to Lua.",
+    "C08": " Also: no iteration of make_frame's argument loop is abandoned before its store (duplicate keys: last wins, as in the template call).",
+    "C09": " Also: both Lua stacks are cut back to their entry length after every invocation, failed ones included (shared with C07.R10a).",
+    "C14": " The integer-key predicate is also extracted from the inline try/int() form.",
+    "C15": " Also: a fast-path guard in front of a substitution step must occur in every match of the step's pattern under the pattern's case rules.",
+    "C18": " Also: a try with a fall-through handler converts at most one argument (optional numeric arguments default independently).",
+    "C19": " Also: a colon guard that looks at argument content is a violation; the re-parse starts from a reset parser state (shared with C01.R7).",
+}
+
 def main():
     props = [json.loads(l) for l in open(os.path.join(HERE, "properties.jsonl"))]
     checks = []
@@ -145,6 +161,7 @@ def main():
             na.append({"property_id": pid, "reason": "checker not built yet (planned, see DESIGN.md §3)"})
             continue
         tech, text, note, ref = CHECKS[pid]
+        text = text + ROUND10.get(pid, "")
         checks.append(
             {
                 "property_id": pid,
